@@ -16,7 +16,8 @@ from common import Ctx, hx, run_model
 ID = "C10"
 PROPS = ["props/C10.v"]
 EXTRACTS = ["C10"]
-THEOREMS: List[str] = []
+THEOREMS = ["C10_index_consistent_all_histories", "C10_one_node_per_project_all_histories", "C10_coherence_checker_sound",
+            "C10_refuted_incoherent_after_entitled_history", "C10_refuted_internal_errors"]
 RULE = ("operation histories (add input set / placeholder, solve a placeholder with a distribution the way the "
         "solver does - source = a requirer, reason = its stored edge -, loader-style adds, invalidate, remove) are "
         "generated adaptively against the real DistributionCollection over an alphabet of 4 projects x 2 versions "
@@ -43,7 +44,8 @@ FUEL = 400
 
 
 def translate(ctx: Ctx) -> Dict[str, str]:
-    return {"gen/NameConsts.v": _tr.gen_name_consts()}
+    import tr_solver
+    return {"gen/NameConsts.v": _tr.gen_name_consts(), "gen/SolverConsts.v": tr_solver.gen_solver_consts()}
 
 
 def _setup():
@@ -86,6 +88,8 @@ class History:
         self.obs: List[Any] = []
         self.markers: List[str] = []
         self.solved_any = False
+        self.pyops: List[Any] = []
+        self.jsonops: List[Any] = []
 
     def mk_dist(self, proj: str, ver: str, meta: bool = False, name: Optional[str] = None, nreq=None):
         rng = self.rng
@@ -96,6 +100,9 @@ class History:
         return self.C.DistInfo(name or rng.choice(SPELL[proj]), None if meta else self.U.parse_version(ver), reqs, meta=meta)
 
     def apply(self, desc: str, toks: List[str], fn) -> bool:
+        if toks[0] in ("I", "R"):
+            self.pyops.append((toks[0], common.unhx(toks[1])))
+            self.jsonops.append({"op": toks[0], "key": common.unhx(toks[1])})
         self.ops.append(toks)
         self.desc.append(desc)
         try:
@@ -116,8 +123,53 @@ class History:
         if reason is not None and reason.marker is not None:
             self.markers.append(str(reason.marker))
         arg = md if md is not None else name
+        self.pyops.append(("A", nm, md, source.key if source is not None else None, reason))
+        self.jsonops.append({"op": "A", "name": nm,
+                             "dist": None if md is None else {"name": md.name, "version": None if md.version is None else str(md.version),
+                                                               "reqs": [str(r) for r in md.reqs], "meta": bool(md.meta)},
+                             "source": source.key if source is not None else None,
+                             "reason": None if reason is None else str(reason)})
         return self.apply(f"add_dist({nm}{'' if md is None else '=='+str(md.version)}, {source.key if source else None}, {reason})",
                           toks, lambda: self.dists.add_dist(arg, source, reason))
+
+    def step_entitled(self) -> bool:
+        """Only operations the solver is entitled to perform: add an input set, solve an unsolved
+        placeholder with a distribution whose version lies in the node's build_constraints (source = a
+        live requirer, reason = its stored edge), invalidate a solved node, remove a root."""
+        rng = self.rng
+        d = self.dists
+        live = list(d.nodes.values())
+        unsolved = [n for n in live if n.metadata is None and n.key in PROJECTS]
+        solved = [n for n in live if n.metadata is not None and not n.metadata.meta]
+        roots = [n for n in live if n.metadata is not None and n.metadata.meta]
+        r = rng.random()
+        if not live or r < 0.1:
+            name = rng.choice(["root.txt", "r2.txt"])
+            if name.replace(".", "_") in d.nodes:
+                name = "r3.txt"
+            return self.op_add(self.mk_dist("a", "0", meta=True, name=name, nreq=rng.choice([1, 2])), None, None, None)
+        if unsolved and r < 0.75:
+            n = rng.choice(unsolved)
+            try:
+                bc = n.build_constraints()
+            except Exception:  # noqa: BLE001
+                return self.op_add(self.mk_dist("a", "0", meta=True, name="r4.txt", nreq=1), None, None, None)
+            vers = [v for v in VERSIONS if bc.specifier.contains(v, prereleases=True)]
+            if not vers:
+                return self.apply(f"invalidate({n.key})", ["I", hx(n.key)], lambda: d.remove_dists(n, remove_upstream=False))
+            md = self.mk_dist(n.key, rng.choice(vers), name=n.key)
+            srcs = [s for s in n.reverse_deps if d.nodes.get(s.key) is s and n in s.dependencies]
+            source = rng.choice(srcs) if srcs else None
+            reason = source.dependencies.get(n) if source is not None else None
+            self.solved_any = True
+            return self.op_add(md, None, source, reason)
+        if solved and r < 0.9:
+            n = rng.choice(solved)
+            return self.apply(f"invalidate({n.key})", ["I", hx(n.key)], lambda: d.remove_dists(n, remove_upstream=False))
+        if roots:
+            n = rng.choice(roots)
+            return self.apply(f"remove({n.key})", ["R", hx(n.key)], lambda: d.remove_dists(n))
+        return self.op_add(self.mk_dist("a", "0", meta=True, name="r5.txt", nreq=1), None, None, None)
 
     def step(self) -> bool:
         rng = self.rng
@@ -198,8 +250,10 @@ def run_histories(ctx: Ctx, n: int, maxlen: int) -> None:
     for _ in range(n):
         h = History(ctx, mods, alphabet, xorder)
         L = ctx.rng.choice([3, 5, 8, maxlen])
+        entitled = ctx.rng.random() < 0.5
+        ctx.count("generator:" + ("entitled-only" if entitled else "any-operation"))
         for _ in range(L):
-            if not h.step():
+            if not (h.step_entitled() if entitled else h.step()):
                 break
         if h.obs and h.obs[-1][0] == "OK":
             h.obs[-1] = ["OK", graphenc.obs_graph(h.dists, with_bc=True)]
@@ -280,24 +334,104 @@ def coherence_violation(dists) -> Optional[str]:
                 for rd in node.reverse_deps:
                     if rd.metadata is None:
                         continue
-                    for extra in [None] + sorted(rd.extras):
+                    try:
+                        rd_extras = sorted(rd.extras)
+                    except Exception as ex:  # noqa: BLE001
+                        return f"extras of requirer {rd.key} raise {type(ex).__name__}"
+                    for extra in [None] + rd_extras:
                         for req in rd.metadata.requires(extra):
                             if normalize_project_name(req.name) == key and not req.specifier.contains(node.metadata.version, prereleases=True):
                                 return f"solved {key}=={node.metadata.version} violates {req} of {rd.key}"
     return None
 
 
+def run_jsonops(jsonops: List[Any]) -> Dict[str, Any]:
+    """Replays a recorded history on a fresh DistributionCollection of /repo."""
+    C, D, U = _setup()
+    U.parse_requirement.cache_clear()
+    d = D.DistributionCollection()
+    for k, op in enumerate(jsonops):
+        try:
+            if op["op"] == "A":
+                md = None
+                if op["dist"] is not None:
+                    dd = op["dist"]
+                    md = C.DistInfo(dd["name"], None if dd["version"] is None else U.parse_version(dd["version"]),
+                                    [U.parse_requirement(r) for r in dd["reqs"]], meta=dd["meta"])
+                src = d.nodes[op["source"]] if op["source"] is not None else None
+                reason = U.parse_requirement(op["reason"]) if op["reason"] is not None else None
+                d.add_dist(md if md is not None else op["name"], src, reason)
+            elif op["op"] == "I":
+                d.remove_dists(d.nodes[op["key"]], remove_upstream=False)
+            else:
+                d.remove_dists(d.nodes[op["key"]])
+        except BaseException as ex:  # noqa: BLE001
+            if isinstance(ex, (KeyboardInterrupt, SystemExit)):
+                raise
+            return {"error": graphenc.exc_class(ex), "at": k}
+    return {"error": None, "incoherent": coherence_violation(d)}
+
+
+def in_thread(fn):
+    res: List[Any] = []
+
+    def work():
+        try:
+            res.append(("ok", fn()))
+        except BaseException as ex:  # noqa: BLE001
+            res.append(("err", ex))
+    sys.setrecursionlimit(12000)
+    threading.stack_size(512 * 1024 * 1024)
+    t = threading.Thread(target=work)
+    t.start()
+    t.join()
+    if res[0][0] == "err":
+        raise res[0][1]
+    return res[0][1]
+
+
+def model_coherent(line: str) -> Optional[bool]:
+    """coherence of the MODEL's final state for the same history (checker proved sound in CheckP.v)"""
+    ans = run_model("C10", [line.replace("G ", "H ", 1)])[0]
+    return {"1": True, "0": False}.get(ans.strip())
+
+
 def search(ctx: Ctx) -> Optional[Dict[str, Any]]:
-    """Replays disagreeing histories, then fresh calm-looking ones, on the implementation only
-    and reports the first history after which the real object is incoherent although every
-    operation succeeded and the model (the unchanged tree's behaviour) stays coherent is not
-    consulted here."""
-    return None
+    """Entitled histories replayed on the implementation only: report one whose every operation succeeds
+    and after which the real object is incoherent although the model (the unchanged tree's behaviour,
+    listed defects included) stays coherent on it - or which raises where the model does not."""
+    def work():
+        mods = _setup()
+        alphabet, xorder = graphenc.measure_xorder()
+        for _ in range(ctx.n(6000, 40000)):
+            h = History(ctx, mods, alphabet, xorder)
+            ok = True
+            for _ in range(ctx.rng.choice([3, 4, 5, 6])):
+                if not h.step_entitled():
+                    ok = False
+                    break
+            impl_bad = (not ok) or coherence_violation(h.dists) is not None
+            if not impl_bad:
+                continue
+            mc = model_coherent(h.line())
+            if mc is True:   # the model runs every op and ends coherent: new behaviour of the code
+                why = ("operation raised " + h.obs[-1][1]) if not ok else coherence_violation(h.dists)
+                return {"input": h.jsonops, "ops": h.desc, "why": why}
+        return None
+    return in_thread(work)
 
 
 def replay(ctx: Ctx, payload: Dict[str, Any]) -> bool:
-    return False
+    fi = payload.get("failing_input")
+    if not fi:
+        return False
+    r = in_thread(lambda: run_jsonops(fi["input"]))
+    return r.get("error") is not None or r.get("incoherent") is not None
 
 
 def replay_known(ctx: Ctx, entry: Dict[str, Any]) -> Optional[bool]:
-    return None
+    d = json.loads((common.VERIF / entry["replay"]).read_text())
+    r = in_thread(lambda: run_jsonops(d["jsonops"]))
+    if d["what"].startswith("error"):
+        return graphenc.norm_json(r.get("error")) == graphenc.norm_json(d["why"])
+    return r.get("error") is None and r.get("incoherent") is not None
